@@ -533,10 +533,22 @@ Proof.
   unfold flat_moves. rewrite E. unfold shift_mirror. simpl. rewrite map_map. reflexivity.
 Qed.
 
+Lemma ring_moves_mirror (x : R) a1 a2 s1 s2 :
+  ring_moves ROps (- x) a1 a2 s1 s2 = shift_mirror ROps (ring_moves ROps x a1 a2 s1 s2).
+Proof.
+  assert (E1 : ((f0 ROps, fdiv ROps (f1 ROps) (fofZ ROps 2), fmul ROps (- x) (fdiv ROps (fofZ ROps 3) (fofZ ROps 4))) : vecR)
+               = mirror ROps (f0 ROps, fdiv ROps (f1 ROps) (fofZ ROps 2), fmul ROps x (fdiv ROps (fofZ ROps 3) (fofZ ROps 4)))).
+  { cdx. f3. simpl. veq; field. }
+  assert (E2 : ((f0 ROps, fdiv ROps (f1 ROps) (fofZ ROps 2), fmul ROps (- x) (fdiv ROps (fofZ ROps 3) (fofZ ROps 2))) : vecR)
+               = mirror ROps (f0 ROps, fdiv ROps (f1 ROps) (fofZ ROps 2), fmul ROps x (fdiv ROps (fofZ ROps 3) (fofZ ROps 2)))).
+  { cdx. f3. simpl. veq; field. }
+  unfold ring_moves. rewrite E1, E2. unfold shift_mirror. simpl. rewrite map_app, !map_map. reflexivity.
+Qed.
+
 Definition good_kind (k : ckind R) : Prop :=
   match k with
   | KAcyc _ _ _ _ _ normal nn _ _ => exists nz, 0 < nz /\ normal = (0, 0, nz) /\ nn = nz
-  | KRing _ _ _ _ => False
+  | KRing _ _ _ _ => True
   | KFlat _ _ _ _ => True
   end.
 
@@ -546,7 +558,7 @@ Proof.
   destruct k as [sel i1 i2 s c normal nn ov nax | a1 a2 s1 s2 | a1 a2 s1 s2]; intros G; cbn [code_step run_step good_kind] in *.
   - destruct G as [nz [Hnz [-> ->]]].
     replace (fmul ROps (- sg) s) with (- (fmul ROps sg s)) by (cbn; ring). apply step_acyclic_mirror, Hnz.
-  - contradiction.
+  - rewrite ring_moves_mirror. apply step_shift_mirror.
   - replace (fmul ROps (- sg) (fofZ ROps 2)) with (- (fmul ROps sg (fofZ ROps 2))) by (cbn; ring).
     rewrite flat_moves_mirror. apply step_shift_mirror.
 Qed.
@@ -579,27 +591,36 @@ Proof.
   split; [exact E|]. intros i j k l Y Y'. subst Y Y'. rewrite E, !nth_map_mirror. apply signed_volume_mirror.
 Qed.
 
-(* ---------------- the ring branch is NOT a mirror image (known finding) ---------------- *)
-Lemma ring_moves_not_mirror a1 a2 s1 s2 :
-  ring_moves ROps (- (1)) a1 a2 s1 s2 <> shift_mirror ROps (ring_moves ROps 1 a1 a2 s1 s2).
+(* ---------------- the ring branch BEFORE the repair was not a mirror image ---------------- *)
+Lemma ring_moves_before_repair_not_mirror a1 a2 s1 s2 :
+  ring_moves_before_repair ROps (- (1)) a1 a2 s1 s2 <> shift_mirror ROps (ring_moves_before_repair ROps 1 a1 a2 s1 s2).
 Proof.
   intros H. apply (f_equal (fun l : list (list nat * vecR) => match l with (_, (_, y, _)) :: _ => y | _ => 0 end)) in H.
-  cbv [ring_moves shift_mirror map fst snd vscale mirror fmul fdiv f0 f1 fofZ fopp ROps app] in H. lra.
+  cbv [ring_moves_before_repair shift_mirror map fst snd vscale mirror fmul fdiv f0 f1 fofZ fopp ROps app] in H. lra.
 Qed.
 
 (* a ring stereo centre a1 = p0 with in-ring neighbours a2 = p1 (marked bond) and p2, and a substituent p3:
-   the wedge and the hash model have the SAME handedness *)
+   before the repair the wedge and the hash model had the SAME handedness; with the repaired displacement they
+   are mirror images, of opposite non-zero handedness *)
 Definition ring_witness : list vecR := [(0, 0, 0); (1, 0, 0); (- (1/2), 4/5, 0); (- (1/2), - (4/5), 0)].
-Lemma ring_branch_same_handedness :
+Lemma ring_branch_same_handedness_before_repair :
   planar ring_witness /\
-  let Y s := run_plan ROps ring_witness ((s, KRing 0%nat 1%nat ((3%nat :: nil) :: nil) nil) :: nil) in
+  let Y s := step_shift ROps ring_witness (ring_moves_before_repair ROps s 0%nat 1%nat ((3%nat :: nil) :: nil) nil) in
   let vol Y := signed_volume ROps (List.nth 0 Y (vzero ROps)) (List.nth 1 Y (vzero ROps)) (List.nth 2 Y (vzero ROps)) (List.nth 3 Y (vzero ROps)) in
   vol (Y 1) = - (3 / 16) /\ vol (Y (- (1))) = - (3 / 16).
 Proof.
   split.
   - intros p [<-|[<-|[<-|[<-|[]]]]]; cdx; f3; veq; ring.
-  - cbv [run_plan run_steps run_step code_step ring_moves step_shift sub_translate update_rows update_from in_idx existsb
+  - cbv [ring_moves_before_repair step_shift sub_translate update_rows update_from in_idx existsb
          map fold_left fst snd app List.nth ring_witness Nat.eqb orb]. cdx. f3. simpl. split; field.
+Qed.
+Lemma ring_branch_opposite_handedness :
+  let Y s := run_plan ROps ring_witness ((s, KRing 0%nat 1%nat ((3%nat :: nil) :: nil) nil) :: nil) in
+  let vol Y := signed_volume ROps (List.nth 0 Y (vzero ROps)) (List.nth 1 Y (vzero ROps)) (List.nth 2 Y (vzero ROps)) (List.nth 3 Y (vzero ROps)) in
+  vol (Y (- (1))) = - vol (Y 1) /\ vol (Y 1) <> 0.
+Proof.
+  cbv [run_plan run_steps run_step code_step ring_moves step_shift sub_translate update_rows update_from in_idx existsb
+       map fold_left fst snd app List.nth ring_witness Nat.eqb orb]. cdx. f3. simpl. split; [field | lra].
 Qed.
 
 (* non-vacuity: a centre with three neighbours and one wedge bond (quarter turn) *)
